@@ -20,7 +20,7 @@ import (
 // both directions; a second Connect to the same peer gets 446 and the server keeps serving.
 
 func init() {
-	sim.RegisterKind("connid-duplicate", "C16")
+	sim.RegisterKind("connid-duplicate", "C16", "C04")
 	sim.RegisterKind("connid-unbacked", "C16")
 	sim.RegisterKind("connect-unexpected", "C16", "C04")
 	sim.RegisterKind("connect-dup-code", "C16")
